@@ -9,13 +9,22 @@ def check(run):
     ctlfam.model(run, INV, PROP, nonvacuity=['NV_NoCount'])
     traces = ctlfam.drive_and_validate(run, 'C05', INV, PROP, n_hist=run.pick(480, 8000), hist_len=run.pick(50, 80),
                                        replay_num=run.pick(150, 1500))
+    # Run mode: the real controller.Run (RPM monitor and control loop goroutines, virtual time) with third-party
+    # writes at instants between two ticks
+    import vlib
+    rtraces = run.drive('TestDriveC05Run', 16, lambda i: dict(VERIF_SEED=run.seed * 1000 + 700 + i, VERIF_N=run.pick(4, 60)), 'c05run',
+                        timeout=3000)
+    rc = vlib.cfg(invariants=['Report', 'C05_UndoneRun'], post='TraceAccepted')
+    run.validate('Monitor_Interf', rc, rtraces, 'moninterf')
+    run.cov['run_mode_third_party_writes'] = ctlfam.count_events(rtraces, lambda ln: '"ev":"Poke3"' in ln)
     pokes = ctlfam.count_events(traces, lambda ln: '"ev":"Poke"' in ln)
     cycles = ctlfam.count_events(traces, lambda ln: '"ev":"Cycle"' in ln)
     return run.finish('model_checking',
                       'MC_Controller to closure with third-party writes (mode 0/2/3 and PWM) between any two cycles; real '
                       'controllers with the harness rewriting pwm / pwm_enable between cycles (every cycle index, modes 0/2/3, '
                       'PWM 0..255, identity / sparse / quantising maps), registers and the third-party counter checked by TLC '
-                      'after every cycle; non-trivial = third-party writes',
+                      'after every cycle; the same against the real controller.Run (concurrent RPM monitor and control loop) with writes placed '
+                      'between ticks in virtual time; non-trivial = third-party writes',
                       dict(evaluations=cycles, distinct_nontrivial=pokes, cycles=cycles, third_party_writes=pokes),
                       ['interference lands between two control cycles (a write that lands inside a cycle is overwritten at once '
                        'and cannot be counted by a check that runs once per cycle)'])
